@@ -395,6 +395,57 @@ type tableXML struct {
 	Rows       []tableRowXML `xml:"tr"`
 }
 
+// decodeGrouped walks the children of a table-level element in document order.
+// Children that only group content (content controls and custom XML blocks,
+// plus the names accepted by nested) are entered; every other child is handed
+// to child, which decodes or skips it. depth is 0 for a direct child.
+func decodeGrouped(d *xml.Decoder, nested func(local string) bool, child func(el xml.StartElement, depth int) error) error {
+	depth := 0
+	for {
+		tok, err := d.Token()
+		if err != nil {
+			return err
+		}
+		switch el := tok.(type) {
+		case xml.StartElement:
+			if isBodyContainer(el.Name.Local) || (nested != nil && nested(el.Name.Local)) {
+				depth++
+				continue
+			}
+			if err := child(el, depth); err != nil {
+				return err
+			}
+		case xml.EndElement:
+			if depth == 0 {
+				return nil
+			}
+			depth--
+		}
+	}
+}
+
+// UnmarshalXML decodes a table, collecting its rows in document order,
+// including rows wrapped in a content control (repeating sections).
+func (t *tableXML) UnmarshalXML(d *xml.Decoder, start xml.StartElement) error {
+	t.XMLName = start.Name
+	return decodeGrouped(d, nil, func(el xml.StartElement, depth int) error {
+		switch {
+		case el.Name.Local == "tr":
+			var row tableRowXML
+			if err := d.DecodeElement(&row, &el); err != nil {
+				return err
+			}
+			t.Rows = append(t.Rows, row)
+			return nil
+		case el.Name.Local == "tblPr" && depth == 0:
+			return d.DecodeElement(&t.Properties, &el)
+		case el.Name.Local == "tblGrid" && depth == 0:
+			return d.DecodeElement(&t.Grid, &el)
+		}
+		return d.Skip()
+	})
+}
+
 // tablePropsXML represents table properties.
 type tablePropsXML struct {
 	Style   styleRefXML     `xml:"tblStyle"`
@@ -443,6 +494,26 @@ type tableRowXML struct {
 	Cells      []tableCellXML `xml:"tc"`
 }
 
+// UnmarshalXML decodes a table row, collecting its cells in document order,
+// including cells wrapped in a content control.
+func (r *tableRowXML) UnmarshalXML(d *xml.Decoder, start xml.StartElement) error {
+	r.XMLName = start.Name
+	return decodeGrouped(d, nil, func(el xml.StartElement, depth int) error {
+		switch {
+		case el.Name.Local == "tc":
+			var cell tableCellXML
+			if err := d.DecodeElement(&cell, &el); err != nil {
+				return err
+			}
+			r.Cells = append(r.Cells, cell)
+			return nil
+		case el.Name.Local == "trPr" && depth == 0:
+			return d.DecodeElement(&r.Properties, &el)
+		}
+		return d.Skip()
+	})
+}
+
 // rowPropsXML represents row properties.
 type rowPropsXML struct {
 	Height rowHeightXML `xml:"trHeight"`
@@ -460,6 +531,30 @@ type tableCellXML struct {
 	XMLName    xml.Name       `xml:"tc"`
 	Properties cellPropsXML   `xml:"tcPr"`
 	Paragraphs []paragraphXML `xml:"p"`
+}
+
+// UnmarshalXML decodes a table cell, collecting its paragraphs in document
+// order. Paragraphs wrapped in a content control and the paragraphs of a table
+// nested in the cell are part of the cell's text.
+func (c *tableCellXML) UnmarshalXML(d *xml.Decoder, start xml.StartElement) error {
+	c.XMLName = start.Name
+	nestedTable := func(local string) bool {
+		return local == "tbl" || local == "tr" || local == "tc"
+	}
+	return decodeGrouped(d, nestedTable, func(el xml.StartElement, depth int) error {
+		switch {
+		case el.Name.Local == "p":
+			var p paragraphXML
+			if err := d.DecodeElement(&p, &el); err != nil {
+				return err
+			}
+			c.Paragraphs = append(c.Paragraphs, p)
+			return nil
+		case el.Name.Local == "tcPr" && depth == 0:
+			return d.DecodeElement(&c.Properties, &el)
+		}
+		return d.Skip()
+	})
 }
 
 // cellPropsXML represents cell properties.
